@@ -128,6 +128,21 @@ CHECKS = {
             "ties and one-dimensional; lock-step with a reference model of the labelled multiset and the scaling attributes.",
             "Known finding: concatenate never refuses different scalings. Exceptions on empty sets count as refusals.",
             "exhaustive operation-sequence enumeration with reference model"),
+    "C19": ("DESIGN.md 2/C19",
+            "Complete lattice of learning configurations (3 labelled data sets incl. unlabelled samples and 1D x split percentage x even/uneven "
+            "x standard/dimension-wise x explorer-chosen shuffle permutations) and on each learned object ALL call sequences of length 2 "
+            "(thorough 3) over {__call__, test_data} x {inside, partly outside, entirely outside, with unlabelled}; arg-max reference under "
+            "the learning-time scaling, removal rule, recomputed summary, earlier results unchanged.",
+            "Ties within 1e-9 accept either class; the learned classifiers themselves are taken from the object (their correctness is C16/C17).",
+            "exhaustive configuration lattice + operation-sequence enumeration with reference model"),
+    "C20": ("DESIGN.md 2/C20",
+            "Complete lattice d x targets x lambda x matrix x level range (standard) / margin x max_evaluations (dimension-wise) x Opticom "
+            "option with default constructor arguments; per component grid the normal equations with an independently recomputed design "
+            "matrix, design matrices vs hat values, smoothing matrices vs the exact gradient Gram matrix on every level vector and on "
+            "every tree / pair of trees, Opticom coefficient sums.",
+            "Known findings: build_C_matrix on anisotropic levels, build_C_matrix_dimension_wise in d>=2 / touching supports (values pinned by "
+            "the repository tests).",
+            "exhaustive configuration lattice, independent normal-equation oracle"),
 }
 
 NOT_YET = "check not built yet in this session; planned (see DESIGN.md section 2)"
